@@ -242,6 +242,26 @@ class FuncV(Val):
         return "Func({})".format(self.node.name)
 
 
+class PartialV(Val):
+    """functools.partial(f, *args, **kwargs)"""
+    kind = "partial"
+
+    def __init__(self, fv, args, kwargs):
+        self.fv = fv
+        self.args = list(args)
+        self.kwargs = dict(kwargs)
+        self.sym = ("partial", getattr(fv, "sym", None))
+
+
+class GetterV(Val):
+    """operator.attrgetter(names...)"""
+    kind = "attrgetter"
+
+    def __init__(self, names):
+        self.names = list(names)
+        self.sym = ("attrgetter",) + tuple(names)
+
+
 class ClassV(Val):
     kind = "class"
 
